@@ -300,7 +300,12 @@ def start(sc: Scenario) -> Ctx:
     elif sc.root == "tracked":
         from hugr.build.tracked_dfg import TrackedDfg
 
-        d = TrackedDfg(*[T.build_type(t) for t in sc.row], track_inputs=True)
+        if sc.extra.get("track_later"):
+            # the other public way to the same state: build untracked, then track the inputs explicitly
+            d = TrackedDfg(*[T.build_type(t) for t in sc.row])
+            d.track_inputs()
+        else:
+            d = TrackedDfg(*[T.build_type(t) for t in sc.row], track_inputs=True)
         ctx.root, ctx.hugr = d, d.hugr
         f = ctx.push("dfg", d, sc.row, is_root=True)
         f.info["tracked"] = list(f.wires)
@@ -822,7 +827,11 @@ def apply(ctx: Ctx, call) -> None:
         fname = call[1]
         ws = [ctx.wires[i] for i in call[2]]
         thunk, want, outs, how = FRAGMENTS[fname]
-        fb = thunk()
+        # one fragment builder per program: a second `insert` call of the same kind inserts the same object again
+        cache = ctx.__dict__.setdefault("frag_builders", {})
+        if fname not in cache:
+            cache[fname] = thunk()
+        fb = cache[fname]
         hs = [w.h for w in ws]
         if how == "insert_tail_loop":
             n = b.insert_tail_loop(fb, hs[:1], hs[1:])
